@@ -6,7 +6,7 @@ from unittest.mock import MagicMock
 import time_machine
 import lib
 # nothing the library or asyncio logs is printed; levels stay effective (logging.disable would make isEnabledFor false everywhere)
-logging.getLogger("aioswitcher").addHandler(logging.NullHandler()); logging.getLogger("aioswitcher").propagate = False
+logging.getLogger("aioswitcher").addHandler(lib.FormattingSink()); logging.getLogger("aioswitcher").propagate = False
 # an application that runs with warnings as errors (-W error, pytest's filterwarnings = error): a deprecation warning attributed to the
 # LIBRARY's own modules - the library itself calling something deprecated while serving an ordinary call - is an exception there
 import warnings as _w
